@@ -197,3 +197,56 @@ Print Assumptions MarshalTaps.c17_root_tap_path.
 Print Assumptions MarshalTaps.c17_taps_extend_root.
 Print Assumptions MarshalTaps.c17_sibling_taps_disjoint.
 Print Assumptions MarshalTaps.c17_taps_count.
+
+(* ---- unmarshalling: the executable model of UnmarshalValue with its context path made explicit
+   (Model/UnmarshalPaths.v: result, path carried by the error, tap log of TapUnmarshal), compared with the
+   code on every run (family utaps: value / error class / error path / tap log) ---- *)
+Module UnmarshalPaths.
+From SbModel Require Import Spec.UnmarshalPathsSpec Proofs.UnmarshalP Proofs.UnmarshalPathsP.
+Local Open Scope N_scope.
+
+(* forgetting paths and log gives the unmarshal model of C05 / C01 back: every theorem about `unm` (acceptance,
+   termination, round trip) speaks about the value part of `unmp` *)
+Theorem c17_unmarshal_paths_erase : forall pf f o R t cur ts p,
+  erase (unmp pf f o R t cur ts p) = unm pf f o R t cur ts.
+Proof. exact unmp_erase. Qed.
+
+(* paths are relative to the context: running under a longer context path prefixes every reported path
+   (taps and error) and changes nothing else *)
+Theorem c17_unmarshal_paths_shift : forall pf f o R t cur ts q p,
+  unmp pf f o R t cur ts (q ++ p) =
+  (shift_res q (fst (unmp pf f o R t cur ts p)), shift_log q (snd (unmp pf f o R t cur ts p))).
+Proof. exact unmp_shift. Qed.
+
+(* every tap path and the path an error carries extend the path of the context the run started under *)
+Theorem c17_unmarshal_paths_extend : forall pf f o R t cur ts p,
+  Forall (fun e => exists s, fst (fst e) = p ++ s) (snd (unmp pf f o R t cur ts p)) /\
+  (forall e ep, fst (unmp pf f o R t cur ts p) = PErr e ep -> exists s, ep = p ++ s).
+Proof. exact unmp_paths_extend. Qed.
+
+(* the first token is offered under the context path itself, with the kind of the target *)
+Theorem c17_unmarshal_first_tap : forall pf f o R t cur tk rest p,
+  exists l, snd (unmp pf (S f) o R t cur (tk :: rest) p) = (p, kind tk, rk_of t) :: l.
+Proof. exact unmp_first_tap. Qed.
+
+(* THE PATH STATEMENT for unmarshalling: reading the canonical stream of a value v : t back into a zero t
+   (whatever follows it in the stream, whatever the registry and the options) succeeds with the normal form of v
+   and announces, in order, exactly the declarative paths of its elements (Spec/UnmarshalPathsSpec.v upaths:
+   each element once under its own path; a pointee under the pointer's path; item i under path ++ [i]; a field's
+   name under the struct's path and its value under path ++ [name]) - on the universe without maps, interfaces,
+   funcs and registered names *)
+Theorem c17_unmarshal_roundtrip_paths : forall pf o R t v ts rest f p,
+  wf_ty t = true -> simple_ty t = true -> noreg_ty t = true ->
+  has_type t v = true -> no_ptr_to_nil v = true ->
+  marshal default_opts t v = Ok ts -> (2 * vsize v < f)%nat ->
+  fst (unmp pf f o R t (zero t) (ts ++ rest) p) = POk (normal t v, rest) /\
+  log_paths (snd (unmp pf f o R t (zero t) (ts ++ rest) p)) = upaths t v p.
+Proof. exact unmp_roundtrip_paths. Qed.
+
+End UnmarshalPaths.
+
+Print Assumptions UnmarshalPaths.c17_unmarshal_paths_erase.
+Print Assumptions UnmarshalPaths.c17_unmarshal_paths_shift.
+Print Assumptions UnmarshalPaths.c17_unmarshal_paths_extend.
+Print Assumptions UnmarshalPaths.c17_unmarshal_first_tap.
+Print Assumptions UnmarshalPaths.c17_unmarshal_roundtrip_paths.
